@@ -352,6 +352,32 @@ pub fn compact_size(n: u64) -> Vec<u8> {
     }
 }
 
+/// CompactSize with a minimum encoded width of `w` bytes (1, 3, 5 or 9)
+pub fn compact_size_w(n: u64, w: u8) -> Vec<u8> {
+    let c = compact_size(n);
+    if (c.len() as u8) >= w {
+        return c;
+    }
+    match w {
+        3 if n <= 0xffff => {
+            let mut v = vec![0xfd];
+            v.extend_from_slice(&(n as u16).to_le_bytes());
+            v
+        }
+        5 if n <= 0xffff_ffff => {
+            let mut v = vec![0xfe];
+            v.extend_from_slice(&(n as u32).to_le_bytes());
+            v
+        }
+        9 => {
+            let mut v = vec![0xff];
+            v.extend_from_slice(&n.to_le_bytes());
+            v
+        }
+        _ => c,
+    }
+}
+
 /// Bitcoin Core's VarInt (MSB base-128 with the "+1" carry), as used in the block index
 pub fn core_varint(mut n: u64) -> Vec<u8> {
     let mut tmp = Vec::new();
